@@ -28,6 +28,11 @@ def run_case(c):
             t.add_notes(NoteContainer(["A-2", "A-3", "A-4", "B-3", "B-4", "C-3", "C-5"]), 4)
         except Exception:
             pass
+        # a chord holding one pitch class under two spellings in different octaves (each note is altered as the note it is)
+        try:
+            t.add_notes(NoteContainer(["C#-3", "Db-5", "B#-3", "C-5", "E#-2", "F-4"]), 4)
+        except Exception:
+            pass
         for k, nc in enumerate(src):
             try:
                 t.add_notes(NoteContainer(nc), 4)
